@@ -362,7 +362,7 @@ class MinMaxAggregator:
                 )
             )
         for bound in analytics.bounds:
-            body.append(Literal(LOC, Sign.NoSign, Comparison(max_var, [bound])))
+            body.append(Literal(LOC, agg.sign, Comparison(max_var, [bound])))
         body.extend(lits_without_vars)
         ret.append(rule.update(body=body))
         if rule.ast_type == ASTType.Rule:
@@ -379,6 +379,11 @@ class MinMaxAggregator:
                 "inside min/max aggregate are not yet supported. See #9."
             )
             return [rule]
+        if agg.sign != Sign.NoSign:
+            analytics = AggAnalytics(agg.atom)
+            if analytics.equal_variable_bound or len(analytics.bounds) != 1:
+                log.info(f"Cannot translate {loc2str(agg.location)} as only a single bound is supported under negation.")
+                return [rule]
         number_of_aggregate = 0
         assert len(agg.atom.elements) == 1
         elem = agg.atom.elements[0]
